@@ -52,7 +52,8 @@ def _structural():
                 elif 'encoding' in params:
                     want = ['encoding']
                 else:
-                    want = ['encoding'] if localenc and 'self' in localenc and 'encoding' in localenc else ['self.encoding']
+                    # a local ``encoding`` holding the tag's / template's own encoding attribute: both spellings name the same value
+                    want = ['encoding', 'self.encoding'] if localenc and 'self' in localenc and 'encoding' in localenc else ['self.encoding']
                 nsites += 1
                 ob('%s.%s.%s#%d' % (m, fn.name, target, ordinal[target]), given in want,
                    '%s.%s calls %s(...) with encoding=%s (the encoding in force there is %s)' % (m, fn.name, target, given, ' / '.join(want)))
